@@ -1601,6 +1601,16 @@ def rule_pu2(ctx: Ctx) -> RuleResult:
             "PU-2", "%s::load_from_file.%s{arms}" % (PQ, callers[0].name), lm.where(callers[0]),
             "on a path where nothing fails the loader is not run to its end (no on_completed): %s; decisions: %s" % (
                 summary(p), "; ".join(e.brief() for e in p.trace if e.k == "decision")[:200]), trace_of(p)))
+        # what the parquet reader is opened on: the file object the caller gave, or the file the operator opened from the caller's path
+        opened = [e for e in p.trace if e.k == "call" and e.func == ("glob", "pyarrow.parquet.ParquetFile")]
+        for e in opened:
+            a0 = e.args[0] if e.args and e.args[0][0] != "kw" else next((a[2] for a in e.args if a[0] == "kw" and a[1] == "source"), None)
+            src_ok = a0 is not None and ((a0[0] == "param" and a0[1] == "filename") or (
+                a0[0] == "ucall" and a0[1] == "open_obj" and a0[2] and a0[2][0][0] == "param" and a0[2][0][1] == "filename"))
+            r.ob(src_ok, lambda e=e, a0=a0, p=p: Finding(
+                "PU-2", "%s::load_from_file.%s{source}" % (PQ, callers[0].name), e.where(),
+                "the parquet reader is opened on %s: it must be the file object the caller gave, or the file opened from the caller's path" % (
+                    show(a0) if a0 is not None else None), trace_of(p)))
         for e in p.trace:
             if e.k == "ucall" and e.d.get("name") == "open_obj":
                 mode = [a[2] for a in e.d.get("args", []) if a[0] == "kw" and a[1] == "mode"] or [a for a in e.d.get("args", [])[1:2] if a[0] != "kw"]
